@@ -46,6 +46,9 @@ def judge(case):
     form = case.get("tau_form", "int")
     tau_arg = {"int": tau, "np": np.int64(tau), "float": float(tau), "str": str(tau)}[form]
     noncorr = bool(case["noncorr"])
+    # the mode flag as a caller may hold it: a Python bool, a numpy bool (element of a flag array, result of a comparison)
+    # or an integer 0/1
+    flag = {"bool": bool, "np": np.bool_, "int": int}[case.get("flag_form", "bool")]
     msgs = []
     try:
         with quiet():
@@ -58,7 +61,7 @@ def judge(case):
                 if other.shape != want_other.shape or not np.allclose(other, want_other, atol=1e-12, rtol=0):
                     return [f"entry-wise mismatch in the {'non-overlapping' if not noncorr else 'sliding'} mode (first query on the object)"]
                 model.get_one_tau_transition_matrix(tau + 1, noncorrelated_windows=noncorr)
-            handed = model.get_one_tau_transition_matrix(tau_arg, noncorrelated_windows=noncorr)
+            handed = model.get_one_tau_transition_matrix(tau_arg, noncorrelated_windows=flag(noncorr))
             got = np.array(handed.todense(), dtype=float)
             if case.get("other_mode_first"):
                 # the matrix handed out belongs to the caller: scaling it in place must not change a later answer
@@ -177,7 +180,8 @@ def _exh_chunk(arg):
             for noncorr in (False, True):
                 idx += 1
                 case = {"traj": traj, "n_cells": n_cells, "tau": tau, "noncorr": noncorr,
-                        "tau_form": forms[idx % 4] if idx % 7 == 0 else "int", "other_mode_first": idx % 3 == 0}
+                        "tau_form": forms[idx % 4] if idx % 7 == 0 else "int", "other_mode_first": idx % 3 == 0,
+                        "flag_form": ("bool", "np", "int")[idx % 3] if idx % 5 == 0 else "bool"}
                 msgs = judge(case)
                 res.case(sample=case if idx % 997 == 1 else None, nontrivial=is_nontrivial(case), key=case,
                          classes=classes_of(case))
@@ -206,7 +210,8 @@ def _hyp_shard(arg):
                 traj = [x for x in traj for _ in range(rep)][:300]
             tau = draw(st.integers(1, 40))
             return {"traj": traj, "n_cells": n_cells, "tau": tau, "noncorr": draw(st.booleans()),
-                    "tau_form": draw(st.sampled_from(["int", "int", "np", "float", "str"])), "other_mode_first": draw(st.booleans())}
+                    "tau_form": draw(st.sampled_from(["int", "int", "np", "float", "str"])), "other_mode_first": draw(st.booleans()),
+                    "flag_form": draw(st.sampled_from(["bool", "bool", "np", "int"]))}
 
         @given(cases())
         def test(case):
